@@ -38,7 +38,9 @@ class ModelsOps:
         if isinstance(spec, OpaqueV):
             if spec.tag.startswith("typing.") or spec.tag.startswith("alias:"):
                 nm = spec.tag.split(".")[-1]
-                if nm in ("Sized", "Iterable", "Mapping", "Sequence", "Collection"):
+                if nm in ("Mapping", "MutableMapping", "Dict"):
+                    return isinstance(v, DictV)
+                if nm in ("Sized", "Iterable", "Sequence", "Collection"):
                     return isinstance(v, (TupleV, ListV, TermV, DictV))
             I.unsupported(node, f"isinstance against {spec!r}")
         if not isinstance(spec, TypeV):
